@@ -350,3 +350,11 @@ Definition render_code (cur : string) (imports : list (string * string)) (t : ty
   | None => 42 end.
 Definition render_mismatches (cases : list (nat * (string * list (string * string) * ty * ex))) : list (nat * nat) :=
   flat_map (fun c => match c with (i, (cur, imps, t, e)) => match render_code cur imps t e with 0 => [] | k => [(i, k)] end end) cases.
+
+(* the same for a spelling function whose layout the model does not describe (migrate's TypeToExpr: nameless parameters):
+   only the denotation of the real output is compared with the input type *)
+Definition denote_mismatches (cases : list (nat * (string * list (string * string) * ty * ex))) : list (nat * nat) :=
+  flat_map (fun c => match c with (i, (cur, imps, t, e)) =>
+                       match denote cur (unalias_of imps) e with
+                       | Some t' => if ty_eqb t t' then [] else [(i, 42)]
+                       | None => [(i, 42)] end end) cases.
